@@ -44,6 +44,10 @@ def check(ctx):
     c12.interrupted_flag(ctx, P, views, iters)
     c01.linear_node(ctx, P, views, iters)
     c07.fifo(ctx, P, views, iters)
+    # every event scheduled before the horizon is executed: the end-of-service scans must not drop a service that started at date 0.0 (shared instances, C02)
+    from . import c02
+    c02.scan_rules(ctx, P)
+    c02.sentinel_tests(ctx, P)
     from ..rules import Pairing, check_pairing
     obp = ctx.ob("R2.pop", "node population counter changes exactly with individuals[*] on every path of every method (a drifting counter ends in list.remove / index errors)")
     check_pairing(ctx, obp, P, views, Pairing("number_of_individuals", "individuals", "R2.population", "population counter vs individuals[*]"), loop_iters=iters)
